@@ -1398,15 +1398,26 @@ def k17(ctx):
     ip = {_nrm(b, i) for (_, base, i) in idx if ".proofs" in _nrm(b, base)}
     ip |= {_nrm(b, b.role_of_operand(c.args[1])) for c in b.calls if not b.blocks[c.bb]["cleanup"] and c.callee and c.callee.name in ("index_mut", "index", "get_mut", "get")
            and ".proofs" in _nrm(b, b.role_of_operand(c.args[0]))}
-    if ia or ip:
+    def enum_elem(x):
+        """'E' when x is `E.<k>..` for E = next(enumerate(<traversal of the children, possibly zipped with the proofs>)), else None"""
+        m_ = re.match(r"^(next\(enumerate\((?:into_iter\(|iter_mut\(|iter\(|zip\()*%s[^;]*?\)\)(?:\.0)?)\.[01]" % re.escape(occ), x)
+        if m_ and not re.search(r"\b(rev|skip|take|step_by|filter|chain)\(", m_.group(1)):
+            return m_.group(1)
+        return None
+    E = enum_elem(pos)
+    if E is not None and pos == E + ".0":
+        # enumerate form: `for (i, child) in children.into_iter().enumerate()` (the proofs indexed by i or zipped in)
+        ok_el = el.startswith(E + ".1") and not ia
+        ok_pr = (ip == {pos}) if ip else pr.startswith(E + ".1") and "zip(" in E and ".proofs" in E
+        ctx.check(ok_el and ok_pr, "same-position", "child invocation, child proof and the position handed to f belong to one element of the enumeration",
+                  "chain_pn_map: position %s, child %s, proof index %s / proof %s do not belong to one element of the traversal" % (pos[:80], el[:80], sorted(ip), pr[:80]), w)
+        ctx.check(".proofs" in pr, "step-gets-child-and-its-proof", "f is handed (child invocation, its proof)", "f is handed elem=%s proof=%s" % (el[:80], pr[:80]), w)
+    elif ia or ip:
         ctx.check(len(ia) == 1 and ia == ip and ia == {pos}, "same-position", "child invocation, child proof and the position handed to f are all taken at the loop's own index",
                   "chain_pn_map reads the child invocation at %s, the child proof at %s and tells f position %s: the three must be one and the same index, or child i travels with the proof of another child" % (sorted(ia), sorted(ip), pos), w)
         ctx.check(occ in el and ".proofs" in pr, "step-gets-child-and-its-proof", "f is handed (child invocation, its proof)", "f is handed elem=%s proof=%s" % (el[:80], pr[:80]), w)
     else:
-        # zipped form: for (i, (a, p)) in occurrences.iter_mut().zip(proofs.iter_mut()).enumerate()
-        ok = "zip(" in el and "zip(" in pr and occ in el and ".proofs" in pr and "enumerate(" in pos and el.split(" as ")[0] == pr.split(" as ")[0]
-        ctx.check(ok, "same-position", "child invocation and child proof are walked in lockstep, the position comes from the same traversal",
-                  "chain_pn_map: could not establish that child i (%s), its proof (%s) and the position (%s) belong together" % (el[:100], pr[:100], pos[:60]), w)
+        ctx.bad("same-position", "chain_pn_map: could not establish that child i (%s), its proof (%s) and the position (%s) belong together" % (el[:100], pr[:100], pos[:60]), w)
     # write-back of both components, on every iteration
     loops = [l for l in C.iterator_loops(b) if fc.bb in C.loop_body(b, l)]
     if len(loops) != 1:
@@ -1421,7 +1432,7 @@ def k17(ctx):
         lo, hi = strip_role(rng[2][0]), _nrm(b, rng[2][1])
         okb = isinstance(lo, tuple) and lo[0] == "const" and str(lo[1]).split("_")[0] == "0" and hi == "len(%s)" % occ
     else:
-        okb = "zip(" in it and occ in it and ".proofs" in it and "Range" not in it and "take(" not in it and "skip(" not in it
+        okb = re.match(r"^enumerate\((?:into_iter\(|iter_mut\(|iter\(|zip\()*%s" % re.escape(occ), it) is not None and not re.search(r"\b(rev|skip|take|step_by|filter|chain)\(", it)
     ctx.check(okb, "bound-is-child-count", "the loop runs over all children (0..len(children) or the children themselves)", "the loop of chain_pn_map ranges over %s" % it[:120], where_of(b, l[0]))
     stores = {}
     for bi, si, s in b.statements():
